@@ -249,10 +249,10 @@ Theorem C13_F131_refuted :
   let cur := [Span (str "req") [[(str "id", str "7")]] (str "app") false] in
   pretty_scope true true [] cur = cur
   /\ format_event_pretty (Opts false true false false false false false) (Thr [] [])
-       (Em (EMeta 3 (str "app") (str "event e") None None false) (pretty_scope true true [] cur) (FOk (str "message") (str "root event") FNil))
+       (Em (EMeta 3 (str "app") (str "event e") None None false None) (pretty_scope true true [] cur) (FOk (str "message") (str "root event") FNil))
      = OOk (str "   INFO  root event" ++ [10] ++ str "    in req with id: 7" ++ [10; 10])
   /\ format_event_pretty (Opts false true false false false false false) (Thr [] [])
-       (Em (EMeta 3 (str "app") (str "event e") None None false) (pretty_scope false true [] cur) (FOk (str "message") (str "root event") FNil))
+       (Em (EMeta 3 (str "app") (str "event e") None None false None) (pretty_scope false true [] cur) (FOk (str "message") (str "root event") FNil))
      = OOk (str "   INFO  root event" ++ [10; 10]).
 Proof. exact pretty_root_fallback_refuted. Qed.
 Print Assumptions C13_F131_refuted.
@@ -381,7 +381,7 @@ Print Assumptions C13_event_record_is_written.
 
 Theorem C13_F132_refuted :
   let sp := Span (str "sp") [[(str "a", str "1")]] (str "app") true in
-  let m := EMeta 3 (str "app") (str "event e") None None false in
+  let m := EMeta 3 (str "app") (str "event e") None None false None in
   let o := Opts false true false false true false false in
   let em := Em m [sp] (FOk (str "message") (str "inside") FNil) in
   ok_fields (FOk (str "message") (str "inside") FNil) = Some [(str "message", str "inside")]
@@ -390,3 +390,30 @@ Theorem C13_F132_refuted :
      = [(m, str " INFO sp{a=1}: app: inside" ++ [10])].
 Proof. exact F132_witness. Qed.
 Print Assumptions C13_F132_refuted.
+
+(** ---- a timer that fails.  Every content theorem above already covers it: the timestamp token is [time_text m] =
+    what the timer wrote ++ "<unknown time>" when the configured [FormatTime] returned [Err] for this emission
+    ([e_time m = Some pre]) and the rest of the token list is unchanged ([C13_content_full_compact], [C13_content_pretty],
+    [C13_lifecycle_record_content]).  What remains is that [format_event] does not bail: read from format_timestamp on
+    every run.  The [?] form (seeded C13-H) drops the record: [C13_timer_bail_refuted]. *)
+Theorem C13_failing_timer_keeps_the_record : forall timer_on fe em,
+  time_guard Gen_fmtbuf.timer_fallback timer_on fe em = fe em.
+Proof. exact (time_guard_fallback). Qed.
+Print Assumptions C13_failing_timer_keeps_the_record.
+
+Theorem C13_failing_timer_token : forall f o th m sc fs pre, o_timer o = true -> e_time m = Some pre ->
+  exists rest, tokens_spec f o th m sc fs = TTimer (pre ++ str "<unknown time>") :: rest.
+Proof. exact timer_token_when_failing. Qed.
+Print Assumptions C13_failing_timer_token.
+
+Theorem C13_timer_bail_refuted :
+  let o := Opts true true false false true false false in
+  let m := EMeta 3 (str "app") (str "event e") None None false (Some (str "12:")) in
+  let em := Em m [] (FOk (str "message") (str "hello") FNil) in
+  format_event Full o (Thr [] []) em = OOk (str "12:<unknown time>  INFO app: hello" ++ [10])
+  /\ format_event_pretty o (Thr [] []) em = OOk (str "  12:<unknown time>  INFO app: hello" ++ [10; 10])
+  /\ time_guard true true (format_event Full o (Thr [] [])) em = format_event Full o (Thr [] []) em
+  /\ time_guard false true (format_event Full o (Thr [] [])) em = OErr (str "12:") (errline m)
+  /\ records false (gev_of (time_guard false true (format_event Full o (Thr [] []))) em) = [].
+Proof. exact timer_failure_example. Qed.
+Print Assumptions C13_timer_bail_refuted.
